@@ -329,6 +329,16 @@ func (ctx *EvalCtx) ident(name string) CV {
 			return cv
 		}
 	}
+	// step clauses are checked on every back edge; a local of the loop body that was not assigned on the
+	// path to this edge has no value here: it reads as an arbitrary value of its type (the clause must
+	// not depend on it on such an edge, e.g. by guarding it with the branch condition)
+	if ctx.frame != nil && ctx.prevState != nil {
+		for _, d := range ctx.frame.debug[name] {
+			if v, isVar := d.Object().(*types.Var); isVar {
+				return CV{ctx.ex.freshOf(ctx.st, "unassigned."+name, v.Type()), v.Type()}
+			}
+		}
+	}
 	ctx.fail("unknown identifier %s", name)
 	return CV{}
 }
